@@ -273,6 +273,23 @@ pub fn run(ctx: &mut Ctx) {
         ctx.violation(&sig, &detail, case_json(&[(ItemPath::from("ke_m"), enum_module("E", ed))], 8));
     }
 
+    // discriminants written as literals beyond the language's integer range never fit
+    for base in INT_BASES.iter().chain(["u128", "i128"].iter()) {
+        for lit in ["9223372036854775808", "0x8000_0000_0000_0000", "0xFFFF_FFFF_FFFF_FFFF", "18446744073709551615", "18446744073709551616"] {
+            for shape in 0..2 {
+                ctx.eval();
+                ctx.count("oversized_literal_cases", 1);
+                let text = if shape == 0 { format!("pub enum E: {base} {{ A = {lit} }}") } else { format!("pub enum E: {base} {{ Z, A = {lit}, B }}") };
+                let out = drive::build_texts(&[("ke_m.pyxis".into(), text.clone())], 8, Opts::default());
+                match out.result {
+                    Ok(_) => ctx.violation("C08/accepted/literal-beyond-integer-range", &format!("`{text}` was accepted"), json!({"ptrw": 8, "modules": {"ke_m": text}})),
+                    Err(e) if e.stage == Stage::Panic => ctx.violation("C08/panic", &e.msg, json!({"ptrw": 8, "modules": {"ke_m": text}})),
+                    Err(_) => {}
+                }
+            }
+        }
+    }
+
     // random enums: acceptance + execution
     let n = ctx.tier.pick(1200usize, 20_000);
     let per_case = 3usize;
